@@ -15,3 +15,7 @@ def main(tier, seed):
 
 RULE_EXTRA = 'control-loop replay (model:ctl) of every trace without Solve; wrapper warnflag stream; exit requests injected between steps.'
 TRUSTED_EXTRA = ['termination verdicts and per-step counter deltas are inputs of the Ctl model (taken from the real run)']
+
+
+def replay(path):
+    return solvercheck.replay(PID, path)
